@@ -637,12 +637,17 @@ Proof.
     unfold blob_watch. destruct w as [| | |c]; simpl blob_fetch; cbv iota.
     + unfold blob_ev_guard_F6 in Hg6; cbn [snd] in Hg6. discriminate.
     + (* empty *)
-      pose proof (Hall [] (fun j => if Nat.eqb j k then SGone else SNone)) as HA. cbv zeta in HA.
-      destruct HA as [A1 [A2 [A3 [A4 A5]]]]; try (constructor || (intros; simpl in *; tauto)).
-      * intros j _ _. simpl. destruct (Nat.eqb k j); reflexivity.
-      * intros j Hj. simpl. destruct (Nat.eqb j k) eqn:E; [reflexivity|].
-        apply Nat.eqb_neq in E. rewrite <- (Hinv b j). simpl. apply Hothers. exact E.
-      * (* from the all-keys step to the one-key step *)
+      assert (Hgone0 : forall j, j < nk -> ~ In j (map fst (@nil (nat * cid))) -> gone_in j (BSingle k CEmpty) = true)
+        by (intros j _ _; simpl; destruct (Nat.eqb k j); reflexivity).
+      assert (Hlv0 : forall j, j < nk ->
+                latest_valid acc ((if Nat.eqb j k then SGone else SNone) :: m (bkey b j)) = lookup_cid j []).
+      { intros j Hj. simpl. destruct (Nat.eqb j k) eqn:E; [reflexivity|].
+        apply Nat.eqb_neq in E. rewrite <- (Hinv b j). simpl. apply Hothers. exact E. }
+      destruct (Hall [] (fun j => if Nat.eqb j k then SGone else SNone) (NoDup_nil _)
+                  (fun _ H => match H with end) (fun _ _ H => match H with end) Hgone0
+                  (fun _ _ H => match H with end) Hlv0 (fun _ _ _ _ H => H)) as [A1 [A2 [A3 [A4 A5]]]].
+      clear A1 A2.
+      { (* from the all-keys step to the one-key step *)
         pose proof (blob_updated_ok fixed b (S b) [] (NoDup_nil _) (fun _ H => match H with end)
                       (fun _ _ H => match H with end) (Hsmall b)
                       (Hnorem [] (fun j _ _ => ltac:(simpl; destruct (Nat.eqb k j); reflexivity)))) as [U1 [U2 U3]].
@@ -661,7 +666,7 @@ Proof.
               apply sid_eqb_neq in E. rewrite <- (Hinv b j). symmetry. apply Hothers. congruence.
            ++ rewrite bst_set_other by exact Hb.
               destruct (sid_eqb (bkey b' j) (bkey b k)) eqn:E; [|apply Hinv].
-              apply sid_eqb_eq in E. apply bsid_inj in E as [_ [E _]]. congruence.
+              apply sid_eqb_eq in E. apply bsid_inj in E as [_ [E _]]. congruence. }
     + (* invalid: internal error, nothing happens *)
       apply (Hnop true).
       * intro j. reflexivity.
